@@ -298,9 +298,8 @@ Conversion<Unit::SpecificPower, Unit::SpecificPower::InchPoundPerSlinchPerSecond
 }
 
 template <typename NumericType>
-inline const std::
-    map<Unit::SpecificPower, std::function<void(NumericType* values, const std::size_t size)>>
-        MapOfConversionsFromStandard<Unit::SpecificPower, NumericType>{
+inline constexpr auto MapOfConversionsFromStandard<Unit::SpecificPower, NumericType>{
+  MakeConversionTable<Unit::SpecificPower, NumericType>({
           {Unit::SpecificPower::WattPerKilogram,
            Conversions<Unit::SpecificPower, Unit::SpecificPower::WattPerKilogram>::
                FromStandard<NumericType>},
@@ -313,12 +312,12 @@ inline const std::
           {Unit::SpecificPower::InchPoundPerSlinchPerSecond,
            Conversions<Unit::SpecificPower, Unit::SpecificPower::InchPoundPerSlinchPerSecond>::
                FromStandard<NumericType>},
+})
 };
 
 template <typename NumericType>
-inline const std::
-    map<Unit::SpecificPower, std::function<void(NumericType* const values, const std::size_t size)>>
-        MapOfConversionsToStandard<Unit::SpecificPower, NumericType>{
+inline constexpr auto MapOfConversionsToStandard<Unit::SpecificPower, NumericType>{
+  MakeConversionTable<Unit::SpecificPower, NumericType>({
           {Unit::SpecificPower::WattPerKilogram,
            Conversions<Unit::SpecificPower, Unit::SpecificPower::WattPerKilogram>::
                ToStandard<NumericType>},
@@ -331,6 +330,7 @@ inline const std::
           {Unit::SpecificPower::InchPoundPerSlinchPerSecond,
            Conversions<Unit::SpecificPower, Unit::SpecificPower::InchPoundPerSlinchPerSecond>::
                ToStandard<NumericType>},
+})
 };
 
 }  // namespace Internal
